@@ -337,6 +337,7 @@ class C03(AsmPlan):
 class C07(AsmPlan):
     pid = 'C07'
     check_meta = False
+    pad_numbers = True
     tie_name = 'expressions: gmars evaluateExpression (through CompileWarrior and the verif hook) vs the extracted combineSigns / flipDoubleNegatives / evaluator model'
     rule = ('infix expressions of depth <= 6 over literals, predefined constants, labels and EQU names, with sign runs of 1..5, redundant parentheses, optional blanks, division and remainder; '
             'assembled as operands under M = 2^40 (value recovered exactly) and under small M (reduction), as ORG arguments and as ;assert conditions; expected = extracted reference evaluator; '
